@@ -570,7 +570,8 @@ class ExcludeRegionState(object):  # pylint: disable=too-many-instance-attribute
         """
         if (deltaE < 0):
             # retraction, record the amount to potentially recover later
-            return self.recordRetraction(
+            recoveryOwed = (self.lastRetraction is not None) and self.lastRetraction.recoverExcluded
+            returnCommands = self.recordRetraction(
                 RetractionState(
                     originalCommand=cmd,
                     firmwareRetract=False,
@@ -578,6 +579,14 @@ class ExcludeRegionState(object):  # pylint: disable=too-many-instance-attribute
                     feedRate=self.feedRate
                 )
             )
+            if (recoveryOwed and not self.excluding):
+                # The retraction was dropped because the filament is still retracted.  Outside of
+                # an excluded region no later command re-synchronizes the extruder position, so
+                # tell the printer the position the file now assumes.
+                returnCommands.append(
+                    "G92 E{e}".format(e=self.position.E_AXIS.nativeToLogical())
+                )
+            return returnCommands
         elif (deltaE > 0):
             # recovery
             return self.recoverRetractionIfNeeded(cmd, True)
